@@ -92,6 +92,10 @@ def run(F, ctx):
     truncs = [c for c in s.normal_calls() if re.search(r"Vec::<.*>::truncate$", c.static_args or "")]
     kparam = 3  # _1 self, _2 query, _3 k
     kd = s.derive({kparam}, through_calls=False)
+    # `k.min(len)` / `min(k, len)` is still a bound by k
+    for c in s.normal_calls():
+        if re.search(r"(std::cmp::Ord>::min|std::cmp::min)(::<.*>)?$", c.static_args or "") and any(op_local(a) in kd for a in c.args):
+            kd = kd | s.derive({c.dst["l"]}, through_calls=False)
     ok = bool(sorts) and bool(truncs) and any(s.dominates(so.bb, tr.bb) for so in sorts for tr in truncs) and any(op_local(tr.args[1]) in kd for tr in truncs)
     ret_ok = True
     ctx.site("sort then truncate(k)", s.where(), ok=ok, sorts=len(sorts), truncates=len(truncs))
